@@ -504,7 +504,7 @@ def c09_docstring(cfg):
 # ------------------------------------------------------------------------------------------------
 # (c) hand-written programs whose `hermitian` declarations are TRUE (products X^dagger X, X^dagger B X), `lower`, nested calls
 
-HANDWRITTEN_INPUTS = {"two_inputs": ["A", "B"]}
+HANDWRITTEN_INPUTS = {"two_inputs": ["A", "B"], "nested_sums": ["A", "B"]}
 
 HANDWRITTEN = {
     "two_inputs": '''def program():
@@ -647,6 +647,26 @@ HANDWRITTEN = {
         pass
 
     return "V", "W"
+''',
+    "nested_sums": '''def program():
+    # sums and differences whose RIGHT operand is itself a parenthesised sum (the sum flattening must distribute the sign)
+    with "C":
+        "A" - ("B" + "A".adj)
+
+    with "D":
+        "A" - ("B" - "C") - "B"
+
+    with "E":
+        start = 0
+        ("A" + "B") - ("C" - ("D" - "A" / 2)) + ("B" - "D @ C")
+
+    with "F":
+        -("A" + "B") - (-"C" + ("D" + "E")) - f("A" - ("B" + "C"))
+
+    with "D @ C":
+        pass
+
+    return "E", "F"
 ''',
 }
 
